@@ -162,7 +162,8 @@ theorem tw_isSome (rq : Eqn → Bool) (v : Node) : ∀ (es : List Eqn) (ty : TyM
 
 /-! ## the second loop -/
 
-/-- `for rhs in find_variables_and_derivatives([equation.rhs])` = `C09.addRefs` -/
+/-- `for rhs in <list>` (the list being `sorted(find_variables_and_derivatives([equation.rhs]), key=str)`) =
+    `C09.addRefs` -/
 theorem refsLoop (sf : Node → Bool) (T : TyMap) (lhs : Node) (f : Node → Graph → Except PyErr (ForInStep Graph))
     (hf : ∀ r G, f r G =
       if r ∈ G.nodes then .ok (.yield (nxAddEdge G r lhs))
@@ -190,25 +191,26 @@ theorem refsLoop (sf : Node → Bool) (T : TyMap) (lhs : Node) (f : Node → Gra
       · simp [hs, bind, Except.bind, errClass, errName]
 
 /-- `for equation in self.equations` (second loop) = `C09.addEqs` -/
-theorem eqsLoop (sf : Node → Bool) (base : List Node) (all : List Eqn)
+theorem eqsLoop (key : Node → String) (sf : Node → Bool) (base : List Node) (all : List Eqn)
     (f : Eqn → Graph → Except PyErr (ForInStep Graph))
     (hf : ∀ e G, e ∈ all → (∀ x ∈ base, x ∈ G.nodes) → f e G =
-      match errClass (errName true) (addRefs sf e.lhs e.refs G) with
+      match errClass (errName true) (addRefs sf e.lhs (sortStr key e.refs) G) with
       | .error x => .error x
       | .ok v => .ok (.yield (addOde e.ode v))) :
     ∀ (es : List Eqn) (G : Graph), (∀ e ∈ es, e ∈ all) → (∀ x ∈ base, x ∈ G.nodes) →
-      forIn es G f = errClass (errName true) (addEqs sf es G)
+      forIn es G f = errClass (errName true) (addEqs key sf es G)
   | [], G, _, _ => by simp [pure, Except.pure, addEqs, errClass]
   | e :: es, G, hall, hb => by
     rw [List.forIn_cons, hf e G (hall e (by simp)) hb]
     simp only [addEqs]
-    cases h1 : addRefs sf e.lhs e.refs G with
+    cases h1 : addRefs sf e.lhs (sortStr key e.refs) G with
     | error x => simp [errClass, bind, Except.bind]
     | ok g1 =>
       simp only [errClass, bind, Except.bind]
-      apply eqsLoop sf base all f hf es _ (fun e' he' => hall e' (List.mem_cons_of_mem _ he'))
+      apply eqsLoop key sf base all f hf es _ (fun e' he' => hall e' (List.mem_cons_of_mem _ he'))
       intro x hx
-      exact mem_addOde_nodes.mpr (Or.inl (((addRefs_spec sf e.lhs e.refs G g1 h1).nodes x).mpr (Or.inl (hb x hx))))
+      exact mem_addOde_nodes.mpr (Or.inl (((addRefs_spec sf e.lhs (sortStr key e.refs) G g1 h1).nodes x).mpr
+        (Or.inl (hb x hx))))
 
 /-- the last loop raises nothing when every non-derivative node has a type -/
 theorem typeLoop (isDer : Node → Bool) (T : TyMap) (f : Node → PUnit → Except PyErr (ForInStep PUnit))
@@ -317,13 +319,13 @@ theorem graph_tie (key : Node → String) (eqs : List Eqn) (vars : List Node) (r
         refine ⟨e, he, ?_⟩
         rw [← hV]
         simp [buildView, hr]
-      rw [eqsLoop (isStateOrFree eqs) (eqs.map (·.lhs)) eqs _ (fun e G he hb => by
-        rw [refsLoop (isStateOrFree eqs) T e.lhs _ (fun r G' => by
+      rw [eqsLoop key (isStateOrFree eqs) (eqs.map (·.lhs)) eqs _ (fun e G he hb => by
+        rw [Py.sortedByStr_eq, refsLoop (isStateOrFree eqs) T e.lhs _ (fun r G' => by
           simp only [isSF, Py.isIn, List.contains_eq_mem]
-          by_cases h1 : r ∈ G'.nodes <;> simp [h1]) e.refs G (fun r hr hn => by
+          by_cases h1 : r ∈ G'.nodes <;> simp [h1]) (sortStr key e.refs) G (fun r hr hn => by
             rw [← hTT, tw_isSF rq r eqs ty1 (fun e' he' _ hl => hn (hb _ (List.mem_map.mpr ⟨e', he', hl⟩)))]
-            simp [hreset e he r hr, isSF, Py.isIn])]
-        cases addRefs (isStateOrFree eqs) e.lhs e.refs G with
+            simp [hreset e he r (mem_sortStr.mp hr), isSF, Py.isIn])]
+        cases addRefs (isStateOrFree eqs) e.lhs (sortStr key e.refs) G with
         | error x => rfl
         | ok v =>
           simp only [errClass]
@@ -338,10 +340,10 @@ theorem graph_tie (key : Node → String) (eqs : List Eqn) (vars : List Node) (r
             by_cases h1 : f ∈ v.nodes <;> by_cases h2 : s ∈ v.nodes <;> simp [h1, h2]
             ) eqs _ (fun _ h => h) (fun _ h => h)]
       have hbg : buildGraph key eqs
-          = addEqs (isStateOrFree eqs) eqs { nodes := List.map (fun x => x.lhs) eqs, edges := [] } := by
+          = addEqs key (isStateOrFree eqs) eqs { nodes := List.map (fun x => x.lhs) eqs, edges := [] } := by
         simp only [buildGraph, hnd, hkn, not_true_eq_false, if_false]
       rw [hbg]
-      cases hg : addEqs (isStateOrFree eqs) eqs { nodes := List.map (fun x => x.lhs) eqs, edges := [] } with
+      cases hg : addEqs key (isStateOrFree eqs) eqs { nodes := List.map (fun x => x.lhs) eqs, edges := [] } with
       | error x => rfl
       | ok g =>
         simp only [errClass]
@@ -382,5 +384,16 @@ theorem graph_independent (key : Node → String) (eqs : List Eqn) (vars vars' :
     (GraphBuild.graph (buildView key eqs vars rq) none ty0).map (fun r => (r.1, r.2.1))
       = (GraphBuild.graph (buildView key eqs vars' rq') none ty0').map (fun r => (r.1, r.2.1)) := by
   rw [graph_tie, graph_tie]
+
+/-- Corollary (the `fix:` "graph nodes in a reproducible order", on the GENERATED code): two runs of the property that
+    are handed the reference sets of the equations in different orders — same left-hand sides, same ODE pairs, the
+    references sorting to the same list by `str`, which is what two iteration orders of one set with distinct `str`
+    keys do (`C09.sortStr_eq_of_perm`) — return the same graph: node list in insertion order, edge list, cache; or
+    raise the same class. -/
+theorem graph_set_order_irrelevant (key : Node → String) {α : Type} (f f' : α → Eqn) (l : List α)
+    (h : ∀ a ∈ l, SameSorted key (f a) (f' a)) (vars vars' : List Node) (rq rq' : Eqn → Bool) (ty0 ty0' : TyMap) :
+    (GraphBuild.graph (buildView key (l.map f') vars' rq') none ty0').map (fun r => (r.1, r.2.1))
+      = (GraphBuild.graph (buildView key (l.map f) vars rq) none ty0).map (fun r => (r.1, r.2.1)) := by
+  rw [graph_tie, graph_tie, buildGraph_congr key f f' l h]
 
 end Cellml.Tie.PGraph
